@@ -161,7 +161,30 @@ def read_bounded(ctx, prog, rule):
            where=f.file_line((outs or [0])[0]))
 
 
+def buffered_sinks_flushed(ctx, prog, rule, paths=None, label="blob-path"):
+    """bytes handed to a buffering wrapper (BufWriter / LineWriter) have not reached the caller's writer: wherever the
+    blob path builds one, every successful return passes a flush of it whose result is checked (dropping the wrapper
+    swallows the error of the final write)"""
+    n = 0
+    for path in (paths or ("e57_reader::E57Reader::<T>::blob", BR)):
+        f = prog.fn(path)
+        ctx.fn_seen(f)
+        R = Resolver(f)
+        for bi, t in f.calls(lambda c, t: ("BufWriter" in c or "LineWriter" in c) and c.rsplit("::", 1)[-1] in ("new", "with_capacity")):
+            n += 1
+            flushes = []
+            for b2, t2 in f.calls(lambda c, t: c.rsplit("::", 1)[-1] in ("flush", "into_inner") and ("Write" in c or "BufWriter" in c or "LineWriter" in c)):
+                recv = R.operand(t2["args"][0])
+                if any(x[0] == "call" and len(x) > 3 and x[3] == bi for x in leaves(recv)) and (branch_of_call(f, b2) is not None or not t2["dest"]["proj"] and t2["dest"]["local"] == 0):
+                    flushes.append(b2)
+            ok = bool(flushes) and f.ok_reachable(removed=flushes, start=f.cfg().get(bi, [])) is None
+            ctx.ob(rule, "buffered-sink-flushed/%s" % short(path), ok, "%s wraps the output in %s: %s" % (short(path), short(callee_of(t)), "every successful return passes a checked flush of it" if ok else "a successful return is reachable without a checked flush (the tail of the blob may never reach the caller's writer)"), where=f.file_line(bi))
+    ctx.ob(rule, "buffered-sinks/%s" % label, True, "%d buffering wrappers on the %s, each judged by buffered-sink-flushed" % (n, label), nontrivial=False)
+    return n
+
+
 def read_protocol(ctx, prog, rule):
+    buffered_sinks_flushed(ctx, prog, rule)
     f = prog.fn(BR)
     S = Steps(ctx, f, rule)
     R = Resolver(f)
@@ -298,6 +321,19 @@ def image_siblings(ctx, prog, rule):
                             (x[0] == "call" and x[1] == BW and ("param", 5) in leaves(x[2][1]) and ("param", 3) not in leaves(x[2][1]))
                 ctx.ob(rule, "image-mask/%s" % name, has_none and has_some, "mask <- %s (must be Some(Blob::write(self.writer, <mask param>)) under Some(mask), else None)" % tree_str(m)[:200], where=f.file_line(bi, si))
         ctx.ob(rule, "image-struct/%s" % name, found, "%s builds a %s" % (name, adt), nontrivial=False)
+        # the caller's readers reach Blob::write untouched: nothing else reads from them first (bytes consumed for a
+        # signature check are missing from the stored blob)
+        touched = []
+        for bi, t in f.calls():
+            c = callee_of(t)
+            if c == BW or not t["args"]:
+                continue
+            last = c.rsplit("::", 1)[-1]
+            if not ("io::Read" in c or "Read>::" in c or last in ("read", "read_exact", "read_to_end", "read_to_string", "read_vectored", "bytes", "take", "chain", "copy")):
+                continue
+            if any(x in (("param", 3), ("param", 5)) for a in t["args"] for x in leaves(R.operand(a))):
+                touched.append("%s at %s" % (short(c), f.file_line(bi)))
+        ctx.ob(rule, "payload-untouched/%s" % name, not touched, "the image and mask readers are handed to Blob::write only (other consumers: %s)" % (touched or "none"))
         # stored into the right slot
         if variant is None:
             tgt = field_assignments(f, "images::Image", "visual_reference")
